@@ -177,6 +177,19 @@ fn check_dom(prop: &str, tier: Tier) {
             }),
         );
     }
+    if prop == "C12" {
+        let mut so = vh::sweeps::SweepOut::default();
+        let rv = vh::c12b::check(&run, &mut so);
+        so.report(&run);
+        println!("C12 readers: {}", rv);
+        states += so.cases;
+        transitions += so.executions;
+        execs += so.executions;
+        for s in &so.samples {
+            samples.push(serde_json::from_str(s).unwrap());
+        }
+        runs.insert("readers".into(), rv);
+    }
     let mut cov = serde_json::Map::new();
     cov.insert("states".into(), json!(states));
     cov.insert("transitions".into(), json!(transitions));
@@ -370,6 +383,7 @@ fn replay(prop: &str, file: &std::path::Path) {
             println!("REPLAY property=C12 outcome={}", if fs.is_empty() { "holds" } else { "violation" });
             std::process::exit(if fs.is_empty() { 0 } else { 1 });
         }
+        "C12" if case.get("tokens").is_some() => simple_replay("C12", vh::c12b::replay(case)),
         "C09" | "C10" | "C11" | "C12" => {
             let ms = vh::domx::replay(case);
             let mine: Vec<_> = ms.iter().filter(|m| m.prop == prop).collect();
